@@ -1,4 +1,5 @@
 import ParryModel.C17.CutLemmas
+import ParryModel.C17.Theorems2
 /-!
 # C17 property theorems, part 6: `TriMesh::intersection_with_local_plane` — the section polyline lies in the plane
 
@@ -220,5 +221,29 @@ theorem section_vertices_in_plane (verts : List (V3 K)) (tris : List Tri) (n : V
           obtain ⟨s, s0, s1, hcr, hpl⟩ := crossing_on_plane_and_edge sq n bias eps _ _ he (oppcol_sdist sq n bias eps he _ _ hopp)
           exact ⟨by rw [hpl]; exact ⟨by linarith, he⟩, Or.inr ⟨t, ht, k, hk, s, s0, s1, hcr⟩⟩
   · simp [hv] at h
+
+/-- **C17 (`TriMesh::intersection_with_plane` / `canonical_intersection_with_plane`, wrapper = local ∘ plane transfer)**: the
+polyline of the world-space section (expressed in the mesh's local frame, as coded) has every *placed* vertex `position * p` within
+`eps` of the requested world plane, for every pose (unit quaternion or not); for the canonical axes every vertex has
+`|p[axis] - bias| ≤ eps`. Both lie on the mesh. -/
+theorem section_world_in_plane (verts : List (V3 K)) (tris : List Tri) (pos : Iso3 K) (n : V3 K) (i : Fin 3) (bias eps : K) (he : 0 ≤ eps)
+    (vs : List (V3 K)) (segs : List (Nat × Nat)) :
+    letI := fieldNum K sq
+    (Section.sectionPos verts tris pos n bias eps = some (.intersect vs segs) →
+      ∀ p ∈ vs, (-eps ≤ (pos.act p).dot n - bias ∧ (pos.act p).dot n - bias ≤ eps) ∧ OnMeshEdge verts.toArray tris p) ∧
+    (Section.sectionCanonical verts tris i bias eps = some (.intersect vs segs) →
+      ∀ p ∈ vs, (-eps ≤ p.get i.val - bias ∧ p.get i.val - bias ≤ eps) ∧ OnMeshEdge verts.toArray tris p) := by
+  letI : Num K := fieldNum K sq
+  constructor
+  · intro h p hp
+    have := section_vertices_in_plane sq verts tris _ _ eps he vs segs h p hp
+    have e := plane_to_local_signed_distance sq pos n bias p
+    simp only [sdist] at this
+    rw [← e]; exact this
+  · intro h p hp
+    have := section_vertices_in_plane sq verts tris _ _ eps he vs segs h p hp
+    have e := (ith_axis_dot sq i p).1
+    simp only [sdist] at this
+    rw [← e]; exact this
 
 end C17
